@@ -129,6 +129,11 @@ def cases(draw):
                 a, b = draw(st.sampled_from(AFF))
             terms.append({"form": form, "kind": kind, "k": k, "a": a, "b": b, "names": [name],
                           "scale": draw(st.sampled_from([1, 1, 1, 0.5, 3, -0.1, -1]))})
+            if kind == "pow" and draw(st.integers(0, 2)) == 0:
+                # the exponent is a Parameter holding k (a number the user wants to tune), not a literal
+                pn = f"k{len(env['params'])}"
+                env["params"].append({"name": pn, "value": k})
+                terms[-1]["pexp"] = pn
         else:
             if len(env["vectors"]) >= len(vnames):
                 continue
@@ -194,7 +199,7 @@ def cases(draw):
         else:
             vkind = "own"
     return {"env": env, "terms": terms, "point": point, "pclass": pclass, "order": order, "vkind": vkind,
-            "single": draw(st.booleans())}
+            "single": draw(st.booleans()), "config": draw(st.sampled_from(["default", "default", "default", "lowthr"]))}
 
 
 def strategy(tier):
@@ -222,6 +227,8 @@ def _term_recipes(t):
         if (t["a"], t["b"]) != (1.0, 0.0):
             arg = ["bin", "+", ["bin", "*", ["const", "pyfloat", t["a"]], arg], ["const", "pyfloat", t["b"]]]
         r = prim_recipe(t["kind"], arg, t["k"])
+        if t.get("pexp"):
+            r = ["bin", "**", arg, ["param", t["pexp"]]]
         return r, r
     V = ["vvar", t["vec"]]
     if t["rev"]:
@@ -332,7 +339,12 @@ def check(case):
     desc = f"expr={show(vec_recipe)} V={order} point={ {k: pt[k] for k in order} }"
     exp = expected_entries(case)
     x = np.array([pt[nm] for nm in order], dtype=float)
-    with quiet():
+    from harness.common import thresholds
+    if case.get("config") == "lowthr":
+        classes.append("cfg:lowthr")   # the deep-tree (iterative) differentiation / compilation algorithms on this model
+    if any(t.get("pexp") for t in case["terms"]):
+        classes.append("parameter-exponent")
+    with thresholds(1 if case.get("config") == "lowthr" else None), quiet():
         outs = {}
         for tag, rec in (("vectorised", vec_recipe), ("longhand", long_recipe)):
             try:
